@@ -187,6 +187,8 @@ def run(vc):
                     note="line susceptances depend on the network frequency: the selected subnet must carry the frequency of its source")
     vc.explore("select_subnet", h_sub, max_paths=200)
 
+    run_drop_oos(vc)
+
     if not hasattr(vc, "native_standins"):
         vc.native_standins = []
     vc.native_standins.append(dict(
@@ -197,11 +199,93 @@ def run(vc):
         script="from replaylib.transformations import main_inactive\nmain_inactive()\n"))
 
 
+def run_drop_oos(vc):
+    """drop_out_of_service_elements keeps every bus that an (in-service) branch still uses: the buses protected from deletion are collected
+    from *every* bus column of every non-empty branch table (both ends of lines, impedances and dclines, all windings of transformers).
+    Dropping an out-of-service bus that is one end of a branch that stays in the net removes that branch as well (drop_buses with
+    drop_elements=True) and changes the power flow."""
+    GMm = "pandapower.toolbox.grid_modification"
+    BRANCH_COLS = {("line", "from_bus"), ("line", "to_bus"), ("impedance", "from_bus"), ("impedance", "to_bus"), ("trafo", "hv_bus"),
+                   ("trafo", "lv_bus"), ("trafo3w", "hv_bus"), ("trafo3w", "mv_bus"), ("trafo3w", "lv_bus"), ("dcline", "from_bus"),
+                   ("dcline", "to_bus")}
+
+    class Col:
+        no_identity_merge = True
+
+        def __init__(self, table, col):
+            self.table, self.col = table, col
+
+    class Columns:
+        def sym_contains(self, it, c):
+            return True
+
+    class T:
+        opaque_like = False
+
+        def __init__(self, name):
+            self.name = name
+
+        def sym_getitem(self, it, key):
+            return Col(self.name, key) if isinstance(key, str) else Opaque(f"{self.name}[...]")
+
+        def sym_len(self, it):
+            return 3          # every branch table has rows (an empty table has no bus to protect)
+
+    def t_attr(it, t, name):
+        if name == "columns":
+            return Columns()
+        return Opaque(f"{t.name}.{name}")
+
+    class N:
+        def __init__(self):
+            self.t = {}
+
+        def sym_getitem(self, it, key):
+            return self.t.setdefault(key, T(key))
+
+    def n_attr(it, n, name):
+        return n.sym_getitem(it, name)
+
+    def h(p):
+        it = p.it
+        it.attr_hooks.append((T, t_attr)); it.attr_hooks.append((N, n_attr))
+        protected = []
+        dropped = []
+        me = it.modenv(GMm)
+        for nm in ("drop_lines", "drop_trafos", "__drop_inactive_other_branches", "__drop_inactive_elements_other"):
+            me.vals[nm] = Native(lambda it_, *a, **k: None, name=nm, pure=False)
+        me.vals["drop_buses"] = Native(lambda it_, n, buses, **k: dropped.append((buses, k)), name="drop_buses", pure=False)
+
+        def concat(it_, series, **k):
+            protected.extend(series)
+            return Opaque("all branch buses")
+        from pyvc.interp import Namespace
+        me.vals["pd"] = Namespace("pandas", {"Index": Native(lambda it_, x=None, **k: Opaque("Index"), name="Index"),
+                                             "concat": Native(concat, name="concat", pure=False)})
+        p.fn("pandapower.toolbox.element_selection:element_bus_tuples")
+        out = p.call(f"{GMm}:drop_out_of_service_elements", N())
+        if out.raised:
+            raise EngineError(f"drop_out_of_service_elements raised {out.exc!r}")
+        got = {(c.table, c.col) for c in protected if isinstance(c, Col)}
+        meta = dict(part="drop-oos")
+        p.prove("drop_out_of_service: the protected buses are collected from table columns only", all(isinstance(c, Col) for c in protected) and bool(protected),
+                meta=meta)
+        for tab, col in sorted(BRANCH_COLS):
+            p.prove(f"drop_out_of_service: buses in {tab}.{col} are protected from deletion", (tab, col) in got, meta=meta,
+                    note="a bus that a remaining branch uses at this end must not be dropped (the branch would be dropped with it)")
+        p.prove("drop_out_of_service: the buses are dropped once, after the protected set is known", len(dropped) == 1, meta=meta)
+    vc.explore("drop_out_of_service_elements", h, max_paths=40)
+
+
 def classify(ob, model):
     return ob.meta.get("part", "")
 
 
 def replay(ob, model, finding=None):
+    if ob.meta.get("part") == "drop-oos":
+        return {"script": f"# replay of {ob.id}\nfrom replaylib.transformations import main_inactive\nmain_inactive()\n",
+                "description": "drop_inactive_elements / drop_out_of_service_elements on a feeder with an open-ended cable (dead end as from or to "
+                               "bus) and a stub line at an out-of-service bus: power flow before / after"}
     return {"script": f"# replay of {ob.id}\nfrom replaylib.transformations import main\nmain()\n",
             "description": "line -> impedance -> line round trip on a net whose line indices are not their positions (parallel lines, different "
                            "lengths): power flow results of the buses unchanged"}
